@@ -12,6 +12,37 @@ CLAIMS = {
         "determinism as values. Trusted: ast, the class/constructor-flow resolver, the one table exemption (Scaler.dims keys).",
         "technique": "AST lint over resolved program (literal dimension designators, call-site default binding, constructor-parameter flow)",
     },
+    "C10": {
+        "text": "The nine named cross-set classes are enumerated through their constructor chains: each pins exactly the alpha "
+        "pair the property fixes, does not accept alpha, drops it from the stored parameters, and resolves every method of "
+        "its general class to the same function (C3 MRO, 12 class pairs incl. MCA rotators); alpha[i] reaches whitener i; "
+        "all eight Whitener/PCA maps return their argument untouched on the identity branch; n_modes='all' resolves to the rank; "
+        "an interval analysis of the delay-embedding slice bound shows no 'slice(None, -0)'.",
+        "note": "Necessary structural clauses only. Not decided: SparsePCA(no penalty)=EOF, MCA(X,X)=EOF, Complex(real)=real, "
+        "multi-set vs cross-set CCA (numerical coincidences). Trusted: constructor-flow resolver, documented domains embedding>=1, tau>=0.",
+        "technique": "constructor-parameter flow + C3 MRO comparison + guard/return analysis + interval abstract interpretation of a slice bound",
+    },
+    "C13": {
+        "text": "For all 29+ serialisable model classes the key set of _params after the __init__ chain (abstractly interpreted: dict "
+        "literal, update, item assignment, pop) is closed under cls(**params); sklearn-style transformers store every constructor "
+        "parameter under its name; every attribute assigned outside __init__ and read on a post-fit path is serialised; every marker "
+        "literal a deserialiser reads is written by a serialiser; the netCDF attribute codec has no unguarded constant subscript on a "
+        "possibly empty string and no unhandled literal_eval (positive fixture fires on every run).",
+        "note": "Necessary structural clauses only. Not decided: value identity of results after a round trip; the real netCDF/zarr "
+        "engines. Known finding: GWPCA constructor closure (see known_findings.json).",
+        "technique": "key-set abstract interpretation of constructor chains, writer/reader literal agreement, guard (try/except, emptiness) analysis",
+    },
+    "C15": {
+        "text": "Every ** splat of a value flowing from solver_kwargs is checked not to target an xeofs callable; in both SVD wrappers "
+        "all four solver branches hand over the user's options and seed the randomised solvers from self.random_state; no global RNG "
+        "draw exists and generator constructors are seeded; every callee taking random_state receives it wherever a seed is in scope "
+        "(unless pinned to the exact solver); each match on the solver has exactly the documented cases plus a raising default; the "
+        "sign multiplier is computed from VT along the feature axis and multiplies U and V; the two wrappers agree on solver keyword "
+        "sets, on the svds re-sort and on the canonical threshold count n_pre - #(cum >= f) + 1 with N-1/ddof=1.",
+        "note": "Necessary structural clauses only. Not decided: minimality of the threshold count as arithmetic on values, agreement of "
+        "exact and randomised results, bit-identity as values. Trusted: table of solver seed keywords (sklearn/scipy/dask APIs).",
+        "technique": "def-use provenance through dict merges and tuple unpacking, call-site parameter binding, match exhaustiveness, sibling cross-check of extracted facts",
+    },
 }
 
 NOT_APPLICABLE = {
